@@ -7,8 +7,28 @@ REQ = ["entry_calls", "inplace_entry_calls", "masked_argument_calls", "o2_elemen
        "pool_concurrent_overlaps"]
 
 
+def cref_build():
+    """py/c20_cref.cpp: the C++ side of the 'scalar bindings return what the C++ library returns' comparison (plain -O2 build)"""
+    core = core_build("ref")
+    outdir = os.path.join(BUILD, "out")
+    os.makedirs(outdir, exist_ok=True)
+    exe = os.path.join(outdir, "c20_cref")
+    src = os.path.join(VERIF, "py", "c20_cref.cpp")
+    stamp = sha_files(repo_core_files() + [src], extra=core["flags"])
+    sf = exe + ".stamp"
+    if os.path.exists(exe) and os.path.exists(sf) and open(sf).read() == stamp:
+        return exe
+    cmd = [CXX, "-std=gnu++17", "-O2", "-g1"] + sum((["-I", i] for i in core["incs"]), []) + [src, core["lib"], "-o", exe]
+    rc, o, e, _ = run(cmd, timeout=900)
+    if rc != 0:
+        raise Inconclusive("building c20_cref failed:\n" + e[-3000:])
+    open(sf, "w").write(stamp)
+    return exe
+
+
 def setup():
     pybuild.vpool_build("asan")
+    cref_build()
 
 
 def _tsan_filter(block):
@@ -34,6 +54,9 @@ def run_property(pid, tier, seed, result):
             pyprops.require_classes(result, "c20_vec.py[%s]" % cfg, classes, REQ)
         else:
             pyprops.require_classes(result, "c20_vec.py[tsan]", classes, ["pool_threaded_dispatches", "pool_concurrent_overlaps"])
+        if cfg != "tsan":
+            cl2, _ = pyprops.run_workload(result, cfg, "c20_scalar.py", t, seed, parts=4, timeout=3000, extra_env={"C20_CREF": cref_build()})
+            pyprops.require_classes(result, "c20_scalar.py[%s]" % cfg, cl2, ["scalar_binding_calls"])
         w = result["extra"].get("workloads", {}).get("c20_vec[%s]" % cfg, {})
         for k in ("partitions_distinct", "orders_distinct"):
             if k in w:
